@@ -70,7 +70,7 @@ PZ == P(0, 64)           \* zero is a parameter value like any other: no influx,
 H(kind, v, p, a, z) == [k |-> kind, v |-> v, p |-> p, a |-> a, z |-> z]
 
 Fresh == [p |-> P0, now |-> Zero, hist |-> <<H("init", 0, P0, Zero, Zero)>>, segs |-> <<>>, nss |-> 0,
-          shift |-> 0, it0 |-> Zero]
+          shift |-> 0, it0 |-> Zero, failed |-> FALSE]
 
 -----------------------------------------------------------------------------
 \* effects
@@ -117,7 +117,7 @@ Steady(s, tau) ==
                       !.hist = Append(@, H("ss", 0, s.p, s.now, tau)), !.nss = @ + 1])
 
 \* results gone, time starts again at zero, parameters stay; the state restarted from is not specified
-Clear(s) == [s EXCEPT !.segs = <<>>, !.now = Zero, !.it0 = Zero, !.shift = 0,
+Clear(s) == [s EXCEPT !.segs = <<>>, !.now = Zero, !.it0 = Zero, !.shift = 0, !.failed = FALSE,
                       !.hist = <<H("free", 0, s.p, Zero, Zero)>>]
 
 Cum(steps, i) == FoldLeft(LAMBDA a, x : a + x.d, 0, SubSeq(steps, 1, i))
@@ -144,7 +144,13 @@ ProtocolTC(s, steps, pts) ==
 
 AbsPts(s, op) == IF op.rel THEN [j \in 1..Len(op.rpts) |-> TAddV(s.now, op.rpts[j])] ELSE op.pts
 
+\* A call whose integration FAILS ("ssfail": a steady-state run on a model that has none) records the failure:
+\* from then on get_result() answers with the failure, not with the segments simulated before, and every further
+\* simulating call does nothing (no segment, no refusal, parameters untouched) until clear_results.
+Simulating(op) == op.k \in {"sim", "tc", "proto", "ptc", "ss", "ssfail", "read"}
 Eff(op, s) ==
+    IF s.failed /\ Simulating(op) THEN Ok(s)
+    ELSE IF op.k = "ssfail" THEN Ok([s EXCEPT !.failed = TRUE]) ELSE
     CASE op.k = "sim"   -> Simulate(s, op.te, op.n)
       [] op.k = "tc"    -> TimeCourse(s, op.pts)
       [] op.k = "proto" -> Protocol(s, op.steps, op.n)
@@ -167,6 +173,7 @@ OpUpd(name, v) == [k |-> "upd", name |-> name, v |-> v]
 OpScale(name, f) == [k |-> "scale", name |-> name, f |-> f]
 OpOv(v) == [k |-> "ov", v |-> v]
 OpSs(tau) == [k |-> "ss", tau |-> tau]
+OpSsFail == [k |-> "ssfail"]
 OpClear == [k |-> "clear"]
 OpRead == [k |-> "read"]
 StepRec(d, p) == [d |-> d, p |-> p]
@@ -191,7 +198,7 @@ Menu(s) ==
                OpTc(<<TEps(t), TAdd(t, 2)>>), OpPtcRel(Proto2, <<1, 2001, 6000>>), OpTc(Rel(t, <<1, 3>>)),
                OpUpd("k", IF s.p.kk = 128 THEN 64 ELSE 128), OpUpd("k", IF s.p.kk = 1 THEN 64 ELSE 1),
                OpUpd("kin", IF s.p.kin = 0 THEN 128 ELSE 0),
-               OpOv(10), OpSs(T(s.nss + 1, 0)), OpClear, OpRead >>
+               OpOv(10), OpSs(T(s.nss + 1, 0)), OpClear, OpRead, OpSsFail >>
        ELSE << OpSim(TAdd(t, m2), 1), OpSim(t, 1), OpSim(TAdd(t, 2), 1), OpSim(TAdd(t, 6), 1),
                OpSim(TAdd(t, m2), 2), OpSim(t, 2), OpSim(TAdd(t, 2), 2), OpSim(TAdd(t, 6), 2),
                OpTc(Rel(t, <<2, 4>>)), OpTc(Rel(t, <<m2, 2, 4>>)), OpTc(<<t>>), OpTc(Rel(t, <<0, 1, 3>>)),
@@ -207,7 +214,7 @@ Menu(s) ==
                OpProto(ProtoZ, 1), OpPtcAbs(ProtoZ, Rel(t, <<1, 3, 5>>)),
                OpProto(ProtoP, 1), OpPtcRel(ProtoP, <<1000, 3000, 5000>>),
                OpTc(Rel(t, <<1, 3>>)),       \* odd offsets: whole numbers exactly when the time reached is not one
-               OpOv(10), OpSs(T(s.nss + 1, 0)), OpClear, OpRead >>
+               OpOv(10), OpSs(T(s.nss + 1, 0)), OpClear, OpRead, OpSsFail >>
 
 \* a simulator that has been overridden twice with simulated time before each override, at a time reached that is
 \* an odd number of ticks (MenuName = "c04warm": histories continue from here)
@@ -259,7 +266,7 @@ AxisIncreasing == Increasing(AllTimes(st.segs))
 RefusalOf(op, s) == Asking(op) => LET r == Eff(op, s) IN
     /\ r.raised <=> TLe(ReqEnd(op, s), s.now)
     /\ r.raised => r.st = s
-RefusalIff == \A i \in 1..Len(Menu(st)) : RefusalOf(Menu(st)[i], st)
+RefusalIff == st.failed \/ \A i \in 1..Len(Menu(st)) : RefusalOf(Menu(st)[i], st)
 
 \* C04/C14: an accepted call adds exactly the requested points later than the time reached, each once
 \* (plus the starting point when there was no result yet), and the time reached becomes the largest
@@ -272,7 +279,7 @@ PointsOf(op, s) == (Asking(op) /\ ~Eff(op, s).raised) => LET r == Eff(op, s)
     /\ \A q \in want : TLe(q, r.st.now)
     /\ r.st.now \in want
     /\ SubSeq(r.st.segs, 1, Len(s.segs)) = s.segs          \* earlier segments untouched
-PointsOnce == \A i \in 1..Len(Menu(st)) : PointsOf(Menu(st)[i], st)
+PointsOnce == st.failed \/ \A i \in 1..Len(Menu(st)) : PointsOf(Menu(st)[i], st)
 
 \* C04: every segment starts where the previous one ended, from the state reached then (overrides
 \* included: they are the history records between two flows), under the parameters recorded for it
@@ -308,7 +315,7 @@ StepsOf(op, s) == (op.k \in {"proto", "ptc"} /\ ~Eff(op, s).raised) => LET r == 
             /\ \A j \in 1..Len(g.times) :
                   \/ TLt(lo, g.times[j]) /\ TLe(g.times[j], hi)
                   \/ i = 1 /\ k0 = 0 /\ j = 1 /\ g.times[j] = s.now
-StepIntervals == \A i \in 1..Len(Menu(st)) : StepsOf(Menu(st)[i], st)
+StepIntervals == st.failed \/ \A i \in 1..Len(Menu(st)) : StepsOf(Menu(st)[i], st)
 
 \* C14: a protocol is the same as applying each step's values and simulating in turn
 ComposedProto(op, s) ==
@@ -329,5 +336,9 @@ ComposedPtc(op, s) ==
 CompositionOf(op, s) ==
     /\ op.k = "proto" => Eff(op, s) = ComposedProto(op, s)
     /\ (op.k = "ptc" /\ ~Eff(op, s).raised) => Eff(op, s) = ComposedPtc(op, s)
-ProtocolIsComposition == \A i \in 1..Len(Menu(st)) : CompositionOf(Menu(st)[i], st)
+ProtocolIsComposition == st.failed \/ \A i \in 1..Len(Menu(st)) : CompositionOf(Menu(st)[i], st)
+
+\* C04 (failures): after a failed call nothing is simulated, refused or changed by a simulating call
+FailedFrozen == st.failed => \A i \in 1..Len(Menu(st)) :
+    Simulating(Menu(st)[i]) => (Eff(Menu(st)[i], st).st = st /\ ~Eff(Menu(st)[i], st).raised)
 =============================================================================
